@@ -35,6 +35,8 @@ func init() {
 				Edits: []Edit{{File: "driver/network/acquirepriv.go", Old: "\t\t\tutil.ErrPrivilegeError, currentPrompt,", New: "\t\t\tutil.ErrOperationError, currentPrompt,"}}},
 			{ID: "C04-refuses-unlinked-level", Desc: "AcquirePriv also refuses known levels without graph neighbours", Rule: "C04/refuse-unknown-first",
 				Edits: []Edit{{File: "driver/network/acquirepriv.go", Old: "if _, ok := d.PrivilegeLevels[target]; !ok {", New: "if _, ok := d.PrivilegeLevels[target]; !ok || len(d.privGraph[target]) == 0 {"}}},
+			{ID: "C04-get-prompt-raw", Desc: "GetPrompt returns everything it read instead of the prompt match", Rule: "C04/get-prompt",
+				Edits: []Edit{{File: "channel/getprompt.go", Old: "cr <- &result{b: c.PromptPattern.Find(b), err: err}", New: "cr <- &result{b: b, err: err}"}}},
 			{ID: "C04-fromfile-skips-acquire", Desc: "SendCommandsFromFile skips the implicit acquire", Rule: "C04/acquire-before-send",
 				Edits: []Edit{{File: "driver/network/sendcommands.go", Old: "\tf string,\n\topts ...util.Option,\n) (*response.MultiResponse, error) {\n\tif d.CurrentPriv != d.DefaultDesiredPriv {", New: "\tf string,\n\topts ...util.Option,\n) (*response.MultiResponse, error) {\n\tif d.CurrentPriv != d.DefaultDesiredPriv && f == \"\" {"}}},
 			{ID: "C04-unknown-only-empty", Desc: "unknown-target refusal only for the empty name", Rule: "C04/refuse-unknown-first",
@@ -69,6 +71,7 @@ func runC04(c *Ctx, r *Report) {
 	r.Rule("C04/refuse-unknown-first", "an unknown target is refused with ErrPrivilegeError before anything that can reach the transport, and only an unknown target is", 3)
 	r.Rule("C04/level-detection", "a level is a candidate exactly when its pattern matches the prompt and no not-contains string occurs in it (substring); the two list helpers are exists-loops", 3)
 	r.Rule("C04/op-options-applied", "the per-operation option constructors (network, generic, channel) apply the full list in order and leave the loop only on a non-ignored error", 3)
+	r.Rule("C04/get-prompt", "GetPrompt writes one return, reads until the prompt and returns the prompt pattern's match in those bytes", 1)
 	r.Rule("C04/graph-links", "buildPrivGraph links every level with its previous level in both directions, unconditionally", 2)
 	r.Rule("C04/opts-forwarded", "every network-driver operation hands its full per-operation option list to each option-taking library callee", 5)
 	r.Rule("C04/step-table", "processAcquirePriv: current-level selection, no-action / transition bookkeeping, next hop and direction on every path", 9)
@@ -77,6 +80,7 @@ func runC04(c *Ctx, r *Report) {
 	r.Rule("C04/acquire-before-send", "commands run after acquiring the default desired level (when the cached level differs); configs / interactive after acquiring the requested, else configuration / default, level", 8)
 
 	checkLevelDetection(c, r)
+	checkGetPromptShape(c, r)
 	checkGraphLinks(c, r, "C04/graph-links")
 	for _, pk := range []string{"driver/network", "driver/generic", "channel"} {
 		checkOperationApplyLoop(c, r, "C04/op-options-applied", pk)
